@@ -16,7 +16,7 @@ from vlib.core import Stage, Violation, fail
 ID = "C20"
 MANIFEST = {
     "category": "exploration",
-    "text": "Complete enumeration of stated sub-domains plus generated-input search. Exhaustive slices: all 368 184 whole hours 1996-01-01..2037-12-31 (quick and thorough), all ~22 M whole minutes and all seconds within +-2 h of each of the 84 DST switches (thorough), each written in one notation chosen as a pure function of (instant, VERIF_SEED) and judged by all five shipped evaluators. Generated: instants that are local midnight / 06:00, near-misses by +-1 s / +-1 h, DST-switch neighbourhoods, x offsets in [-23:59, +23:59] (incl. seconds offsets) x notations (T/space, fractions, Z, +HH:MM(:SS), +HHMM, +HH, basic and week dates), directly and through format_constraint_evaluation('[93x]'); arbitrary / almost-datetime / very long strings and range-edge datetimes must never raise - neither when the evaluators are called directly nor through format_constraint_evaluation('[93x]') - and must be unfulfilled with a message. Oracle: EU summer-time rule in integer arithmetic; 931 fulfilled iff the written offset is zero.",
+    "text": "Complete enumeration of stated sub-domains plus generated-input search. Exhaustive slices: all 368 184 whole hours 1996-01-01..2037-12-31 (quick and thorough), all ~22 M whole minutes and all seconds within +-2 h of each of the 84 DST switches (thorough), each written in one notation chosen as a pure function of (instant, VERIF_SEED) and judged by all five shipped evaluators. Generated: instants that are local midnight / 06:00, near-misses by +-1 s / +-1 h, DST-switch neighbourhoods, x offsets in [-23:59, +23:59] (incl. seconds offsets) x notations (T/space, fractions, Z, +HH:MM(:SS), +HHMM, +HH, basic and week dates), directly and through format_constraint_evaluation('[93x]'); arbitrary / almost-datetime / very long strings and range-edge datetimes must never raise - neither when the evaluators are called directly nor through format_constraint_evaluation('[93x]') - and must be unfulfilled with a message. Oracle: EU summer-time rule in integer arithmetic; 931 fulfilled iff the written offset is zero. A second evaluator, a subclass that overrides evaluate_932 / evaluate_934, is asked for 931 / 933 / 935 on every instant.",
     "note": "Trusted: the integer EU-DST rule and the formatter in vlib/ref.py (cross-checked against the shipped evaluators on every whole hour), CPython's datetime.fromisoformat as the definition of which notations are parseable at all. The top-level exhaustive flag stays false: only the listed slices are complete. Process configuration by shard (vlib/sut.py; recorded in replay files): plain / parse caches preheated beyond their size / warnings attributed to ahbicht raised as errors / logging fully enabled with every record rendered; one event loop per process or a new one per call; five process time zones; the hash seed is the shard number; namesakes of ahbicht's marshmallow schema classes are registered.",
     "technique": "exhaustive enumeration of time slices plus property-based testing against an independent integer-arithmetic model of German local time",
 }
@@ -62,6 +62,27 @@ def evaluator():
             edifact_format_version = sut.VER
 
         _EVALUATOR.append(Shipped())
+
+        class Overriding(FcEvaluator):
+            """
+            a user class that re-defines two of the five keys (as a coroutine, with semantics of its own) and relies on
+            the shipped 931 / 933 / 935: those three must still judge the instant themselves
+            """
+
+            edifact_format = sut.FMT
+            edifact_format_version = sut.VER
+
+            async def evaluate_932(self, entered_input):  # pylint:disable=invalid-overridden-method,unused-argument
+                from ahbicht.models.condition_nodes import EvaluatedFormatConstraint
+
+                return EvaluatedFormatConstraint(False, "932 is handled elsewhere in this application")
+
+            async def evaluate_934(self, entered_input):  # pylint:disable=invalid-overridden-method,unused-argument
+                from ahbicht.models.condition_nodes import EvaluatedFormatConstraint
+
+                return EvaluatedFormatConstraint(True, None)
+
+        _EVALUATOR.append(Overriding())
     return _EVALUATOR[0]
 
 
@@ -92,6 +113,15 @@ def judge(ts, offset_s, style, keys=("931", "932", "933", "934", "935"), text=No
         message = getattr(value, "error_message", None)
         if (not fulfilled) and not (isinstance(message, str) and message):
             raise Violation("message", f"evaluate_{key}({text!r}) is unfulfilled without an error message", replay)
+    overriding = _EVALUATOR[1]
+    for key in ("931", "933", "935"):
+        if key not in keys:
+            continue
+        res = sut.call(getattr(overriding, f"evaluate_{key}"), text)
+        fulfilled = getattr(res.value, "format_constraint_fulfilled", None) if res.ok else None
+        if not res.ok or fulfilled is not expected[key]:
+            raise Violation(f"verdict-{key}", f"evaluate_{key}({text!r}) of a subclass that overrides evaluate_932 / evaluate_934 gave "
+                            f"{res!r}; the instant is {_describe(ts)} German local time, so the shipped {key} must be {expected[key]}", replay)  # fmt: skip
     return text
 
 
